@@ -40,10 +40,62 @@ def mk(model):
 
 
 def r_isosteric(ctx: Ctx, model):
-    ctx.rule("E-isosteric: ln p vs 1/T regression per loading, result -R*slope/1000, stderr R*stderr/1000")
+    ctx.rule("E-isosteric: ln p vs 1/T regression per loading, result -R*slope/1000, stderr R*stderr/1000, for 2, 3 and 4 temperatures")
+    for NT in (2, 3, 4):
+        _r_isosteric_n(ctx, model, NT)
+    r_isosteric_wrapper(ctx, model)
+
+
+def r_isosteric_wrapper(ctx: Ctx, model):
+    """isosteric_enthalpy: column j of the pressure table and temperatures[j] belong to the same isotherm, in any order of the list"""
+    ctx.rule("E-isosteric (pairing): isosteric_enthalpy hands isosteric_enthalpy_raw, for every isotherm j, that isotherm's pressures "
+             "as column j and that isotherm's temperature as temperatures[j] - for isotherms listed in any temperature order")
+    I = mk(model)
+    fi = model.func(f"{CH}.isosteric_enth.isosteric_enthalpy")
+    cap = {}
+
+    def raw(I, fi_, env, n):
+        cap["pressures"], cap["temperatures"] = env.get("pressures"), env.get("temperatures")
+        return ([S("h0")], [S("s0", real=True)], [S("c0", real=True)], [S("e0")])
+    I.overrides[f"{CH}.isosteric_enth.isosteric_enthalpy_raw"] = raw
+    temps = [sp.Integer(300), sp.Integer(260), sp.Integer(340)]          # deliberately not sorted
+    for j in range(3):
+        kind = f"IsoT{j}"
+        I.libmeth[(kind, "pressure_at")] = (lambda j: lambda I, v, a, k, n: Vec([S(f"pa{j}"), S(f"pb{j}")]))(j)
+        I.libmeth[(kind, "loading")] = (lambda j: lambda I, v, a, k, n: Vec([S(f"la{j}"), S(f"lb{j}")]))(j)
+    isos = [Obj(kind=f"IsoT{j}", label=f"iso{j}", attrs={"temperature": temps[j], "material": "M", "loading_basis": "molar", "material_basis": "mass",
+                                                          "loading_unit": "mmol", "material_unit": "g", "pressure_mode": "absolute", "pressure_unit": "bar",
+                                                          "units": {}}) for j in range(3)]
+
+    def np_array(I, a, k, n):
+        v = a[0]
+        if isinstance(v, list) and v and all(isinstance(x, Vec) for x in v):
+            return Obj(kind="Mat", attrs={"rows": list(v)})
+        return v
+    I.ext["numpy.array"] = np_array
+    I.ext["numpy.asarray"] = np_array
+    I.libattr[("Mat", "T")] = lambda I, v, n: Obj(kind="MatT", attrs={"cols": v.attrs["rows"]})
+    I.libmeth[("Mat", "transpose")] = lambda I, v, a, k, n: Obj(kind="MatT", attrs={"cols": v.attrs["rows"]})
+    outs = I.explore(lambda I: I.call_func(fi, [list(isos)], {"loading_points": Vec([S("n0"), S("n1")]), "branch": "ads"}, None))
+    pr, tt = cap.get("pressures"), cap.get("temperatures")
+    cols = pr.attrs["cols"] if isinstance(pr, Obj) and pr.kind == "MatT" else None
+    tl = list(tt.items) if isinstance(tt, Vec) else list(tt) if isinstance(tt, (list, tuple)) else None
+    ok = bool(outs) and all(o.kind == "ok" for o in outs) and cols is not None and tl is not None and len(cols) == 3 and len(tl) == 3
+    if ok:
+        for j in range(3):
+            owner = next((m for m in range(3) if cols[j].items[0] == S(f"pa{m}")), None)
+            ok = ok and owner is not None and sp.simplify(sp.sympify(tl[j]) - temps[owner]) == 0
+    ctx.ob(ok, Finding("C19.E-isosteric", fi.where, "isosteric_enthalpy|pairing",
+                       f"isotherms at {temps} K (in that order): pressure columns {[str(c.items[0]) for c in cols] if cols else pr!r} are paired with "
+                       f"temperatures {tl}: each column must be regressed against its own isotherm's temperature "
+                       f"(outcome {[o.kind for o in outs]})"),
+           nontrivial_key=("iso", "pairing"))
+
+
+def _r_isosteric_n(ctx: Ctx, model, NT):
     I = mk(model)
     fi = model.func(f"{CH}.isosteric_enth.isosteric_enthalpy_raw")
-    NT, NL = 3, 2
+    NL = 2
     T = [S(f"T{j}") for j in range(NT)]
     P = [[S(f"p{i}_{j}") for j in range(NT)] for i in range(NL)]
     regs = []
@@ -56,25 +108,27 @@ def r_isosteric(ctx: Ctx, model):
     I.ext["numpy.asarray"] = lambda I, a, k, n: Vec([Vec(r) if isinstance(r, list) else r for r in a[0]]) if isinstance(a[0], list) else a[0]
     outs = I.explore(lambda I: (regs.clear(), I.call_func(fi, [[list(r) for r in P], list(T)], {}, None), list(regs))[1:])
     if len(outs) != 1 or outs[0].kind != "ok":
-        ctx.ob(False, Finding("C19.E-isosteric", fi.where, "isosteric_raw|outcome", f"isosteric_enthalpy_raw -> {outs}"))
+        ctx.ob(False, Finding("C19.E-isosteric", fi.where, f"isosteric_raw|outcome|T{NT}", f"isosteric_enthalpy_raw ({NT} temperatures) -> {outs}"))
         return
     (enth, slopes, corr, stderrs), rg = outs[0].value
     R = S("R")
     ok = len(enth) == NL and all(decide_zero(enth[i] - (-R * S(f"slope{i}", real=True) / 1000))[0] == "zero" for i in range(NL))
-    ctx.ob(ok, Finding("C19.E-isosteric", fi.where, "isosteric_raw|formula",
-                       f"isosteric enthalpies are {[str(x) for x in enth]}; required -R*slope/1000 per loading (kJ/mol)"),
-           nontrivial_key=("iso", "formula"), sample={"rule": "E-isosteric", "derived": [str(x) for x in enth]})
+    ok = ok and len(rg) == NL
+    ctx.ob(ok, Finding("C19.E-isosteric", fi.where, f"isosteric_raw|formula|T{NT}",
+                       f"{NT} temperatures: isosteric enthalpies are {[str(x) for x in enth]}; required -R*slope/1000 of a ln p vs 1/T regression "
+                       f"per loading (kJ/mol); regressions performed: {len(rg)}"),
+           nontrivial_key=("iso", "formula", NT), sample={"rule": "E-isosteric", "derived": [str(x) for x in enth]})
     okr = len(rg) == NL and all(isinstance(x, Vec) and isinstance(y, Vec) and
                                 all(decide_zero(x.items[j] - 1 / T[j])[0] == "zero" for j in range(NT)) and
                                 all(decide_zero(y.items[j] - sp.log(P[i][j]))[0] == "zero" for j in range(NT))
                                 for i, (x, y) in enumerate(rg))
-    ctx.ob(okr, Finding("C19.E-isosteric", fi.where, "isosteric_raw|regression-variables",
+    ctx.ob(okr, Finding("C19.E-isosteric", fi.where, f"isosteric_raw|regression-variables|T{NT}",
                         f"each loading must regress ln(p) at that loading against 1/T; regressions: {[(I.describe(x), I.describe(y)) for x, y in rg]}"),
-           nontrivial_key=("iso", "vars"))
+           nontrivial_key=("iso", "vars", NT))
     oks = len(stderrs) == NL and all(decide_zero(stderrs[i] - R * S(f"se{i}") / 1000)[0] == "zero" for i in range(NL))
-    ctx.ob(oks, Finding("C19.E-isosteric", fi.where, "isosteric_raw|stderr", f"standard errors {[str(x) for x in stderrs]}; required R*stderr/1000"),
-           nontrivial_key=("iso", "stderr"))
-    ctx.ob(list(slopes) == [S(f"slope{i}", real=True) for i in range(NL)], Finding("C19.E-isosteric", fi.where, "isosteric_raw|slopes", "slopes are not returned verbatim"))
+    ctx.ob(oks, Finding("C19.E-isosteric", fi.where, f"isosteric_raw|stderr|T{NT}", f"standard errors {[str(x) for x in stderrs]}; required R*stderr/1000"),
+           nontrivial_key=("iso", "stderr", NT))
+    ctx.ob(list(slopes) == [S(f"slope{i}", real=True) for i in range(NL)], Finding("C19.E-isosteric", fi.where, f"isosteric_raw|slopes|T{NT}", "slopes are not returned verbatim"))
 
 
 def r_whittaker(ctx: Ctx, model):
